@@ -9,6 +9,7 @@ package face
 import (
 	"io"
 	"sort"
+	"sync"
 
 	defn "github.com/named-data/ndnd/fw/defn"
 	"github.com/named-data/ndnd/fw/dispatch"
@@ -64,6 +65,7 @@ type VerifTransport struct {
 	Stall   chan struct{}
 	Entered chan struct{}
 	closeCh chan struct{}
+	mu      sync.Mutex // guards Frames / Dropped when a send goroutine (Run) writes them while the harness looks
 }
 
 // NewVerifTransport makes an in-memory transport with the given MTU and scope.
@@ -95,6 +97,8 @@ func (t *VerifTransport) sendFrame(frame []byte) {
 	}
 	c := make([]byte, len(frame))
 	copy(c, frame)
+	t.mu.Lock()
+	defer t.mu.Unlock()
 	if len(frame) > t.MTU() {
 		t.Dropped = append(t.Dropped, c)
 		return
@@ -104,7 +108,18 @@ func (t *VerifTransport) sendFrame(frame []byte) {
 }
 
 // Reset forgets recorded frames.
-func (t *VerifTransport) Reset() { t.Frames, t.Dropped = nil, nil }
+func (t *VerifTransport) Reset() {
+	t.mu.Lock()
+	defer t.mu.Unlock()
+	t.Frames, t.Dropped = nil, nil
+}
+
+// Snapshot returns the frames recorded so far (safe while a send goroutine is running).
+func (t *VerifTransport) Snapshot() [][]byte {
+	t.mu.Lock()
+	defer t.mu.Unlock()
+	return append([][]byte{}, t.Frames...)
+}
 
 // VerifMakeLinkService builds a real NDNLPLinkService on the in-memory transport (no goroutines, no sockets).
 func VerifMakeLinkService(t *VerifTransport, options NDNLPLinkServiceOptions, faceID uint64) *NDNLPLinkService {
